@@ -47,6 +47,9 @@ func main() {
 		"token ids are assumed unguessable: vstore's ids are sequential, so a flipped id digit of an opaque token can name another live token of the same subject - such a string is that token's genuine content under the provider's key; counted (forged_grey_class), not judged, and the forged-token worlds mint nothing that could be hit",
 		"refresh and ID tokens presented at userinfo / introspection are counted, not judged (the endpoints are defined for access tokens)",
 		"host-dependent issuers: a JWT access token / ID token counts as issued by the provider only for the issuer of the request it is presented to (iss = request issuer); opaque access tokens and refresh tokens carry no issuer, so honouring them under the provider's other host is counted, not judged; the owner's revocation under the other host is followed through the storage monitor (adaptive), not judged",
+		"a forged / unknown string counts as resolving when it decrypts to a stored token id or is a stored refresh token (a flip in the subject half keeps the victim's id): only non-resolving strings must be answered 200 at revocation by owner and foreign client; resolving ones are sent by the foreign client only and may be refused, but must change nothing",
+		"introspection: the oracle's caller is the client the credential authenticates (assertion issuer / Basic user), never a form client_id sent next to it",
+		"an expired id_token_hint signed by the provider's key with the right iss / sub / azp is a logout hint like a valid one: a 302 answer means the (sub, azp) session is terminated",
 		"token exchange is judged one-directionally (a refused live token is counted only); revocation of an already dead token by anybody is counted only",
 	)
 	var mandatory []string
@@ -62,6 +65,11 @@ func main() {
 			"end_session:"+rn, "end_session-plain:"+rn, "end_session-from-request:"+rn,
 			"te-success:"+rn, "te-success-with-actor:"+rn, "te-dead-refused:subject:"+rn, "te-dead-refused:actor:"+rn,
 			"forged-world-victims-honoured:"+rn, "forged-garbage-revoke-200:"+rn,
+			"introspect-mixed-assertion-inactive:"+rn, "introspect-mixed-basic-inactive:"+rn, "introspect-active:mixed-basic-owner:"+rn,
+			"introspect-active:assertion-audmember:"+rn,
+			"end_session-valid-hint:"+rn, "end_session-expired-hint:"+rn,
+			"forged-unknown-revoke-200:owner:"+rn, "forged-unknown-revoke-200:foreign:"+rn, "forged-unknown-key-jwt-revoke-200:"+rn,
+			"forged-rotated-key-revoke-200:"+rn,
 		)
 		for _, v := range userinfoVariants {
 			mandatory = append(mandatory, "userinfo-variant:"+v+":"+rn)
